@@ -18,7 +18,7 @@ from . import common
 
 PLAN = {
     ("C15", "quick"): [("grid", 2500), ("main", 90), ("hist", 60), ("freq", 24)],
-    ("C15", "thorough"): [("gridall", 0), ("main", 1500), ("hist", 1500), ("freq", 300)],
+    ("C15", "thorough"): [("grid", 60000), ("main", 1500), ("hist", 1500), ("freq", 300)],
     ("C17", "quick"): [("pct", 0), ("main", 60)],
     ("C17", "thorough"): [("pct", 0), ("main", 2000)],
     ("C11", "quick"): [("main", 40)],
